@@ -236,17 +236,19 @@ func Main(p *Plan, tier string, replayID string, seed int64) {
 					// the same keys come back every time.
 					k0 := violKeys(r)
 					ok := true
+					other := ""
 					for i := 0; i < 2; i++ {
 						r2 := runCase(c)
-						if violKeys(r2) != k0 {
+						if k2 := violKeys(r2); k2 != k0 {
 							ok = false
+							other = k2
 						}
 					}
 					if ok {
 						confirmed = r.Violations
 					} else {
 						mu.Lock()
-						flaky = append(flaky, c.ID+" :: "+k0)
+						flaky = append(flaky, c.ID+" :: first run ["+k0+"] re-run ["+other+"]")
 						mu.Unlock()
 					}
 				}
